@@ -141,7 +141,12 @@ func (h *Handler) ServeHTTP(response http.ResponseWriter, request *http.Request)
 	}
 	data, err := readAll(io.LimitReader(request.Body, int64(h.Service.MaxRequestLength)+1), request.ContentLength)
 	if err != nil {
+		// a body shorter than its Content-Length: data is padded with zeros,
+		// it is not what the client sent and must not reach the service
 		h.onError(response, request, err)
+		_ = request.Body.Close()
+		response.WriteHeader(http.StatusBadRequest)
+		return
 	}
 	if err = request.Body.Close(); err != nil {
 		h.onError(response, request, err)
